@@ -62,7 +62,12 @@ Record chan_layer {V CS : Type} (fold : CS -> list (N * V) -> res CS) (getr : CS
 (* the state pre-handlers: the pre-handler of a node that may ask for a rerun rebuilds, from the state it
    left behind, the input it handed to the aborted attempt, and leaves the state alone *)
 Record state_layer {V GS SCP : Type} (zero : V) (pre : N -> V -> GS -> V * GS) (rerunnable : N -> Prop)
-       (GOK : GS -> Prop) : Prop := {
+       (GOK : GS -> Prop) (geq : GS -> GS -> Prop) : Prop := {
+  (* [geq]: the states the pre-handlers cannot tell apart (what a state modifier may change) *)
+  sl_geq_refl : forall g, geq g g;
+  sl_geq_trans : forall a b c, geq a b -> geq b c -> geq a c;
+  sl_pre_geq : forall k v a b, geq a b ->
+    fst (pre k v a) = fst (pre k v b) /\ geq (snd (pre k v a)) (snd (pre k v b));
   sl_pre_ok : forall k v gs, GOK gs -> GOK (snd (pre k v gs));
   sl_rebuild : forall (ts : list (@task V SCP)) gs,
     GOK gs -> NoDup (map t_key ts) -> Forall fresh_task ts ->
@@ -138,9 +143,13 @@ Section Susp.
   Definition H_fold_prefix := cl_fold_prefix _ _ _ H_chan.
   Definition H_fold_perm := cl_fold_perm _ _ _ H_chan.
   Variable GOK : GS -> Prop.
-  Hypothesis H_state : state_layer (SCP := SCP) zero pre rerunnable GOK.
-  Definition H_pre_ok := sl_pre_ok _ _ _ _ H_state.
-  Definition H_rebuild := sl_rebuild _ _ _ _ H_state.
+  Variable geq : GS -> GS -> Prop.
+  Hypothesis H_state : state_layer (SCP := SCP) zero pre rerunnable GOK geq.
+  Definition H_pre_ok := sl_pre_ok _ _ _ _ _ H_state.
+  Definition H_rebuild := sl_rebuild _ _ _ _ _ H_state.
+  Definition H_geq_refl := sl_geq_refl _ _ _ _ _ H_state.
+  Definition H_geq_trans := sl_geq_trans _ _ _ _ _ H_state.
+  Definition H_pre_geq := sl_pre_geq _ _ _ _ _ H_state.
 
   Notation decideR := (decide zero fold getr before after).
   Notation iterR := (iterate zero fold getr pre execR before after).
@@ -441,19 +450,23 @@ Section Susp.
   Lemma mk_task_keys : forall ready : list (N * V), map t_key (map (@mk_task V SCP) ready) = map fst ready.
   Proof. intros; rewrite map_map; reflexivity. Qed.
 
-  Lemma finish_sim : forall cs l (gs1 : GS) ha,
-    J cs (map fst l) -> GOK gs1 ->
-    match finish [] [] gs1 (calc fold getr cs l) with
+  (* the loop states of the interrupted run: the state of the uninterrupted run up to [geq] *)
+  Definition seqv (sR sU : lstateT) : Prop :=
+    ls_cs sR = ls_cs sU /\ ls_next sR = ls_next sU /\ geq (ls_gs sR) (ls_gs sU).
+
+  Lemma finish_sim : forall cs l (gU gR : GS) ha,
+    J cs (map fst l) -> GOK gU -> geq gR gU ->
+    match finish [] [] gU (calc fold getr cs l) with
     | Continue s' =>
-        WF s' /\
-        (finish before ha gs1 (calc fold getr cs l) = Continue s' \/
-         exists hb, finish before ha gs1 (calc fold getr cs l) = Interrupted (plain_info gs1 hb ha) (save s'))
-    | Done v => finish before ha gs1 (calc fold getr cs l) = Done v
-    | Failed e => finish before ha gs1 (calc fold getr cs l) = Failed e
+        WF s' /\ exists sR', seqv sR' s' /\ fresh_state sR' /\
+        (finish before ha gR (calc fold getr cs l) = Continue sR' \/
+         exists hb, finish before ha gR (calc fold getr cs l) = Interrupted (plain_info gR hb ha) (save sR'))
+    | Done v => finish before ha gR (calc fold getr cs l) = Done v
+    | Failed e => finish before ha gR (calc fold getr cs l) = Failed e
     | Interrupted _ _ => False
     end.
   Proof.
-    intros cs l gs1 ha Hj Hg. unfold finish.
+    intros cs l gU gR ha Hj Hg Hge. unfold finish.
     destruct (calc fold getr cs l) as [[cs2 ready]| |] eqn:Hc; auto.
     destruct (nlist_get kEnd ready) eqn:He; auto.
     rewrite hits_nil'. simpl.
@@ -461,9 +474,24 @@ Section Susp.
     split.
     { split; [simpl; rewrite mk_task_keys; exact Hj2|]. split; [apply map_mk_task_fresh|]. split; [|exact Hg].
       simpl. rewrite mk_task_keys. exact Hnd. }
+    exists {| ls_cs := cs2; ls_next := map mk_task ready; ls_gs := gR |}.
+    split; [split; [reflexivity|split; [reflexivity|exact Hge]]|]. split; [apply map_mk_task_fresh|].
     destruct (is_nil (hits before ready) && is_nil ha); auto.
     right. rewrite Hc2. simpl. rewrite !app_nil_r.
     exists (hits before ready). unfold plain_interrupt, plain_info. rewrite save_mk. reflexivity.
+  Qed.
+
+  Lemma run_pres_geq : forall (ts : list taskT) a b, geq a b ->
+    fst (run_pres pre ts a) = fst (run_pres pre ts b) /\ geq (snd (run_pres pre ts a)) (snd (run_pres pre ts b)).
+  Proof.
+    induction ts as [|t ts IH]; intros a b Hab; simpl; auto.
+    destruct (t_skip t).
+    - destruct (IH a b Hab) as [E1 E2].
+      destruct (run_pres pre ts a) as [ra ga]; destruct (run_pres pre ts b) as [rb gb]; simpl in *. split; [congruence|exact E2].
+    - destruct (H_pre_geq (t_key t) (t_in t) a b Hab) as [Ev Eg].
+      destruct (pre (t_key t) (t_in t) a) as [va ga]; destruct (pre (t_key t) (t_in t) b) as [vb gb]; simpl in *.
+      destruct (IH ga gb Eg) as [E1 E2].
+      destruct (run_pres pre ts ga) as [ra ga']; destruct (run_pres pre ts gb) as [rb gb']; simpl in *. split; [congruence|exact E2].
   Qed.
 
   (* ---------------------------------------------------------------- *)
@@ -593,13 +621,13 @@ Section Susp.
     mid_S : Sr <> [] \/ Ss <> [];
     mid_rr : Forall (fun t => rerunnable (t_key t)) Sr;
     mid_ss : Forall (fun s => Susp (si_key s) (t_in (si_t s)) (si_c s) (si_L s)) Ss;
-    mid_cs : exists csD, fold (ls_cs sU) (outs_of D) = Ok csD /\ c = mid_cp csD (snd (subm sU)) Sr Ss;
+    mid_cs : exists csD gR, fold (ls_cs sU) (outs_of D) = Ok csD /\ geq gR (snd (subm sU)) /\ c = mid_cp csD gR Sr Ss;
   }.
 
   (* what the store holds w.r.t. the uninterrupted run, the completed executions already logged and
      what has already been emitted for the step of the uninterrupted run that is under way *)
   Inductive rel (c : cptT) (sU : lstateT) : list eventT -> list X -> Prop :=
-  | rel_plain : c = save sU -> rel c sU [] []
+  | rel_plain : forall sR, seqv sR sU -> fresh_state sR -> c = save sR -> rel c sU [] []
   | rel_mid : forall D Sr Ss, mid c sU D Sr Ss ->
       rel c sU (evs D ++ evs (map si_t Ss)) (flat_map ttr D ++ flat_map si_L Ss).
 
@@ -699,19 +727,19 @@ Section Susp.
   (* ---------------------------------------------------------------- *)
   (* the core: one step of the interrupted run on the pending items     *)
   (* ---------------------------------------------------------------- *)
-  Lemma seg_core : forall f vU lU (sU sR : lstateT) D0 items cs1,
-    (forall sU' l', WF sU' -> iterU f sU' tt [] = (ODone vU, l', tt) ->
-       forall fR env, (f <= fR)%nat -> EOK env -> seg_ok vU l' f [] [] env (iterR fR sU' env [])) ->
+  Lemma seg_core : forall f vU lU (sU sR : lstateT) D0 items cs1 gR1,
+    (forall sU' sR' l', seqv sR' sU' -> WF sU' -> iterU f sU' tt [] = (ODone vU, l', tt) ->
+       forall fR env, (f <= fR)%nat -> EOK env -> seg_ok vU l' f [] [] env (iterR fR sR' env [])) ->
     WF sU -> iterU (S f) sU tt [] = (ODone vU, lU, tt) ->
     Permutation (D0 ++ map it_task items) (fst (subm sU)) ->
     items <> [] -> Forall it_ok items ->
     fold (ls_cs sU) (outs_of D0) = Ok cs1 -> ls_cs sR = cs1 ->
-    run_pres pre (ls_next sR) (ls_gs sR) = (map it_sub items, snd (subm sU)) ->
+    run_pres pre (ls_next sR) (ls_gs sR) = (map it_sub items, gR1) -> geq gR1 (snd (subm sU)) ->
     forall fR env, (f <= fR)%nat -> EOK env ->
       seg_ok vU lU (S f) (evs D0 ++ flat_map it_oldev items) (flat_map ttr D0 ++ flat_map it_old items) env
              (iterR (S fR) sR env []).
   Proof.
-    intros f vU lU sU sR D0 items cs1 IH Hwf HU Hperm Hne Hok Hf0 Hcs Hsub fR env Hle He.
+    intros f vU lU sU sR D0 items cs1 gR1 IH Hwf HU Hperm Hne Hok Hf0 Hcs Hsub HgR fR env Hle He.
     pose proof Hwf as (Hj & Hfr & Hnd & Hg).
     pose proof (subm_fresh sU Hfr) as Hfs.
     pose proof (run_pres_ok (ls_next sU) (ls_gs sU) Hg) as Hg1. fold (subm sU) in Hg1.
@@ -757,7 +785,7 @@ Section Susp.
         by (unfold calc; rewrite Hcall, Hfall; reflexivity).
       rewrite Hceq.
       assert (Hjl : J (ls_cs sU) (map fst (outs_of ts'))) by (rewrite outs_of_keys; exact Hj').
-      pose proof (finish_sim (ls_cs sU) (outs_of ts') gs1 (afters after (rsU_of D)) Hjl Hg1) as Hsim.
+      pose proof (finish_sim (ls_cs sU) (outs_of ts') gs1 gR1 (afters after (rsU_of D)) Hjl Hg1 HgR) as Hsim.
       simpl in Hev, Htp. rewrite app_nil_r in Hev, Htp.
       assert (Hpe : Permutation ((evs D0 ++ flat_map it_oldev items) ++ good (events_of (map it_sub items) (rsU_of D))) (evs ts')).
       { rewrite <- Hrs. rewrite <- app_assoc. eapply Permutation_trans; [apply Permutation_app_head; exact Hev|].
@@ -768,47 +796,47 @@ Section Susp.
       destruct (finish [] [] gs1 (calc fold getr (ls_cs sU) (outs_of ts'))) as [s'|v|i c0|e] eqn:HfU;
         try (destruct HfinU; fail).
       + destruct HfinU as (l' & HU' & ->).
-        destruct Hsim as (Hwf' & [HR|[hb HR]]); rewrite HR; cbn [app].
+        destruct Hsim as (Hwf' & sR' & Hsq & HfrR & [HR|[hb HR]]); rewrite HR; cbn [app].
         * rewrite iterate_log0.
-          pose proof (IH s' l' Hwf' HU' fR env1 Hle He1) as Hseg.
-          destruct (iterR fR s' env1 []) as [[o l] e].
+          pose proof (IH s' sR' l' Hsq Hwf' HU' fR env1 Hle He1) as Hseg.
+          destruct (iterR fR sR' env1 []) as [[o l] e].
           eapply seg_ok_prefix; eauto.
         * split; [exact He1|]. exists Lnew. split; [exact Htr|].
-          right. exists (plain_info gs1 hb (afters after (rsU_of D))), (save s'), s', f, (evs ts'), l', [], [].
-          split; [reflexivity|]. split; [constructor; reflexivity|]. split; [exact Hwf'|].
+          right. exists (plain_info gR1 hb (afters after (rsU_of D))), (save sR'), s', f, (evs ts'), l', [], [].
+          split; [reflexivity|]. split; [apply (rel_plain _ _ sR'); auto|]. split; [exact Hwf'|].
           split; [lia|]. split; [exact HU'|]. split; [reflexivity|].
           rewrite !app_nil_r. split; [exact Hpe|exact Hpt].
       + destruct HfinU as (-> & ->). rewrite Hsim. cbn [app].
         split; [exact He1|]. exists Lnew. split; [exact Htr|]. left. split; [reflexivity|]. split; [exact Hpe|exact Hpt].
     - (* some bodies are suspended: mid-step checkpoint *)
       rewrite <- ESs in *. assert (HS : @nil taskT <> [] \/ Ss <> []) by (right; rewrite ESs; discriminate).
-      destruct (decide_susp cs1 gs1 items rs D [] Ss csD Hx HS HfD1) as (i & Hd).
+      destruct (decide_susp cs1 gR1 items rs D [] Ss csD Hx HS HfD1) as (i & Hd).
       rewrite Hd. cbn [app].
       split; [exact He1|]. exists Lnew. split; [exact Htr|].
-      right. exists i, (mid_cp csD gs1 [] Ss), sU, (Datatypes.S f), [], lU, (evs (D0 ++ D) ++ evs (map si_t Ss)),
+      right. exists i, (mid_cp csD gR1 [] Ss), sU, (Datatypes.S f), [], lU, (evs (D0 ++ D) ++ evs (map si_t Ss)),
                (flat_map ttr (D0 ++ D) ++ flat_map si_L Ss).
       split; [reflexivity|]. split.
       { apply (rel_mid _ _ (D0 ++ D) [] Ss). constructor; auto.
         - unfold S_tasks. rewrite app_nil_r. simpl in HpD. exact HpD.
         - eapply xres_susp; eauto.
-        - exists csD. split; [exact HfD|reflexivity]. }
+        - exists csD, gR1. split; [exact HfD|]. split; [exact HgR|reflexivity]. }
       split; [exact Hwf|]. split; [lia|]. split; [exact HU|]. split; [reflexivity|].
       cbn [app TU flat_map]. split.
       + rewrite <- app_assoc. rewrite evs_app, <- app_assoc. apply Permutation_app_head. exact Hev.
       + rewrite <- app_assoc. rewrite flat_map_app, <- app_assoc. apply Permutation_app_head. exact Htp.
     - (* some bodies ask for a rerun (and maybe some are suspended) *)
       rewrite <- ESr in *. assert (HS : Sr <> [] \/ Ss <> []) by (left; rewrite ESr; discriminate).
-      destruct (decide_susp cs1 gs1 items rs D Sr Ss csD Hx HS HfD1) as (i & Hd).
+      destruct (decide_susp cs1 gR1 items rs D Sr Ss csD Hx HS HfD1) as (i & Hd).
       rewrite Hd. cbn [app].
       split; [exact He1|]. exists Lnew. split; [exact Htr|].
-      right. exists i, (mid_cp csD gs1 Sr Ss), sU, (Datatypes.S f), [], lU, (evs (D0 ++ D) ++ evs (map si_t Ss)),
+      right. exists i, (mid_cp csD gR1 Sr Ss), sU, (Datatypes.S f), [], lU, (evs (D0 ++ D) ++ evs (map si_t Ss)),
                (flat_map ttr (D0 ++ D) ++ flat_map si_L Ss).
       split; [reflexivity|]. split.
       { apply (rel_mid _ _ (D0 ++ D) Sr Ss). constructor; auto.
         - unfold S_tasks. eapply Permutation_trans; [|exact HpD]. apply Permutation_app_head. apply Permutation_app_comm.
         - eapply xres_rerunnable; eauto.
         - eapply xres_susp; eauto.
-        - exists csD. split; [exact HfD|reflexivity]. }
+        - exists csD, gR1. split; [exact HfD|]. split; [exact HgR|reflexivity]. }
       split; [exact Hwf|]. split; [lia|]. split; [exact HU|]. split; [reflexivity|].
       cbn [app TU flat_map]. split.
       + rewrite <- app_assoc. rewrite evs_app, <- app_assoc. apply Permutation_app_head. exact Hev.
@@ -825,24 +853,29 @@ Section Susp.
   (* ---------------------------------------------------------------- *)
   (* a segment that starts at a loop state of the uninterrupted run     *)
   (* ---------------------------------------------------------------- *)
-  Lemma seg_plain : forall fuelU (sU : lstateT) vU lU,
-    WF sU -> iterU fuelU sU tt [] = (ODone vU, lU, tt) ->
-    forall fuelR env, (fuelU <= fuelR)%nat -> EOK env -> seg_ok vU lU fuelU [] [] env (iterR fuelR sU env []).
+  Lemma seg_plain : forall fuelU (sU sR : lstateT) vU lU,
+    seqv sR sU -> WF sU -> iterU fuelU sU tt [] = (ODone vU, lU, tt) ->
+    forall fuelR env, (fuelU <= fuelR)%nat -> EOK env -> seg_ok vU lU fuelU [] [] env (iterR fuelR sR env []).
   Proof.
-    induction fuelU as [|f IH]; intros sU vU lU Hwf HU fuelR env Hle He.
+    induction fuelU as [|f IH]; intros sU sR vU lU Hsq Hwf HU fuelR env Hle He.
     { simpl in HU. discriminate. }
     destruct fuelR as [|fR]; [lia|].
     pose proof Hwf as (Hj & Hfr & Hnd & Hg).
     pose proof (subm_fresh sU Hfr) as Hfs.
     destruct (stepU_done f sU vU lU Hfr HU) as (Hdef & Hnn & _).
-    pose proof (seg_core f vU lU sU sU [] (map IFresh (fst (subm sU))) (ls_cs sU)) as Hc.
+    destruct Hsq as (Ecs & Enext & Egs).
+    destruct (run_pres_geq (ls_next sU) (ls_gs sR) (ls_gs sU) Egs) as [Ets Eg1].
+    pose proof (seg_core f vU lU sU sR [] (map IFresh (fst (subm sU))) (ls_cs sU)
+                  (snd (run_pres pre (ls_next sU) (ls_gs sR)))) as Hc.
     rewrite flat_old_fresh, flat_oldev_fresh in Hc. cbn [app evs map flat_map] in Hc.
     apply Hc; auto.
+    - intros sU' sR' l' Hsq' Hwf' HU' fR' env' Hle' He'. eapply IH; eauto.
     - rewrite it_task_fresh. apply Permutation_refl.
     - destruct (fst (subm sU)); [congruence|simpl; discriminate].
     - apply fresh_items_ok; auto.
     - eapply H_fold_nil; eauto.
-    - rewrite it_sub_fresh. unfold subm. destruct (run_pres pre (ls_next sU) (ls_gs sU)); reflexivity.
+    - rewrite it_sub_fresh, Enext. unfold subm. rewrite <- Ets.
+      destruct (run_pres pre (ls_next sU) (ls_gs sR)); reflexivity.
     - lia.
   Qed.
 
@@ -889,18 +922,22 @@ Section Susp.
   Qed.
 
   (* the nodes that asked for a rerun run their pre-handler again, which rebuilds their input *)
-  Lemma run_pres_rerun : forall c (Sr : list taskT) gs1,
+  Lemma run_pres_rerun : forall c (Sr : list taskT) gs1 g,
     (forall t, In t Sr -> memN (t_key t) (cp_skip c) = false /\ nlist_get (t_key t) (cp_subs c) = None) ->
-    (forall t, In t Sr -> pre (t_key t) zero gs1 = (t_in t, gs1)) -> Forall fresh_task Sr ->
-    run_pres pre (map (restored c) (map (fun t => (t_key t, zero)) Sr)) gs1 = (Sr, gs1).
+    (forall t, In t Sr -> pre (t_key t) zero gs1 = (t_in t, gs1)) -> Forall fresh_task Sr -> geq g gs1 ->
+    exists g', run_pres pre (map (restored c) (map (fun t => (t_key t, zero)) Sr)) g = (Sr, g') /\ geq g' gs1.
   Proof.
-    induction Sr as [|t Sr IH]; intros gs1 H Hp Hf; simpl; auto.
-    inversion Hf as [|? ? [Hs Hc] Hf']; subst.
-    destruct (H t (or_introl eq_refl)) as [H1 H2]. rewrite H1, H2.
-    rewrite (Hp t (or_introl eq_refl)). rewrite IH; auto.
-    - f_equal. f_equal. destruct t as [k i sk cp]; simpl in *; subst; reflexivity.
-    - intros; apply H; right; auto.
-    - intros; apply Hp; right; auto.
+    induction Sr as [|t Sr IH]; intros gs1 g H Hp Hf Hg; simpl.
+    - exists g. auto.
+    - inversion Hf as [|? ? [Hs Hc] Hf']; subst.
+      destruct (H t (or_introl eq_refl)) as [H1 H2]. rewrite H1, H2.
+      destruct (H_pre_geq (t_key t) zero g gs1 Hg) as [Ev Eg]. rewrite (Hp t (or_introl eq_refl)) in Ev, Eg. simpl in Ev, Eg.
+      destruct (pre (t_key t) zero g) as [v g1]. simpl in Ev, Eg. subst v.
+      destruct (IH gs1 g1) as (g' & Hr & Hg'); auto.
+      + intros; apply H; right; auto.
+      + intros; apply Hp; right; auto.
+      + rewrite Hr. exists g'. split; [|exact Hg']. f_equal. f_equal.
+        destruct t as [k i sk cp]; simpl in *; subst; reflexivity.
   Qed.
 
   Lemma sub_cps_get : forall Ss s, NoDup (map si_key Ss) -> In s Ss -> nlist_get (si_key s) (sub_cps Ss) = Some (si_c s).
@@ -927,19 +964,20 @@ Section Susp.
       intros y [<-|Hy]; [intro Hi; apply Hnot; apply in_or_app; auto|auto].
   Qed.
 
-  Lemma seg_mid : forall fuelU (sU : lstateT) vU lU c D Sr Ss,
+  Lemma seg_mid : forall fuelU (sU : lstateT) vU lU c D Sr Ss sm,
+    (forall g, geq (sm g) g) ->
     WF sU -> mid c sU D Sr Ss -> iterU fuelU sU tt [] = (ODone vU, lU, tt) ->
     forall fuelR env, (fuelU <= fuelR)%nat -> EOK env ->
       seg_ok vU lU fuelU (evs D ++ evs (map si_t Ss)) (flat_map ttr D ++ flat_map si_L Ss) env
-             (resumeR fuelR (fun g => g) c env).
+             (resumeR fuelR sm c env).
   Proof.
-    intros fuelU sU vU lU c D Sr Ss Hwf Hm HU fuelR env Hle He.
+    intros fuelU sU vU lU c D Sr Ss sm Hsm Hwf Hm HU fuelR env Hle He.
     destruct fuelU as [|f]; [simpl in HU; discriminate|].
     destruct fuelR as [|fR]; [lia|].
     pose proof Hwf as (Hj & Hfr & Hnd & Hg).
     pose proof (subm_fresh sU Hfr) as Hfs.
     destruct (stepU_done f sU vU lU Hfr HU) as (Hdef & Hnn & _).
-    destruct Hm as [Hperm HS Hrr Hss (csD & HfD & ->)].
+    destruct Hm as [Hperm HS Hrr Hss (csD & gR & HfD & HgR & ->)].
     set (ts' := fst (subm sU)) in *. set (gs1 := snd (subm sU)) in *.
     assert (Hnd' : NoDup (map t_key ts')) by (unfold ts'; rewrite subm_keys; exact Hnd).
     assert (HndS : NoDup (map si_key Ss ++ map t_key Sr)).
@@ -957,24 +995,26 @@ Section Susp.
       - apply HinS. unfold S_tasks. apply in_or_app; auto.
       - rewrite Forall_forall in Hrr. auto. }
     unfold resume. cbv beta zeta.
-    set (sR := with_gs (restore (mid_cp csD gs1 Sr Ss)) (ls_gs (restore (mid_cp csD gs1 Sr Ss)))).
-    assert (Hsub : run_pres pre (ls_next sR) (ls_gs sR) = (map it_sub (S_items Sr Ss), gs1)).
+    set (sR := with_gs (restore (mid_cp csD gR Sr Ss)) (sm (ls_gs (restore (mid_cp csD gR Sr Ss))))).
+    assert (Hsmg : geq (sm gR) gs1) by (eapply H_geq_trans; [apply Hsm|exact HgR]).
+    assert (Hsub : exists gR1, run_pres pre (ls_next sR) (ls_gs sR) = (map it_sub (S_items Sr Ss), gR1) /\ geq gR1 gs1).
     { unfold sR, restore, with_gs, mid_cp. cbn [ls_next ls_gs cp_inputs cp_gs cp_skip cp_subs].
       rewrite map_app.
       change (fun kv : N * V => {| t_key := fst kv; t_in := snd kv; t_skip := memN (fst kv) (map si_key Ss);
                                    t_cp := nlist_get (fst kv) (sub_cps Ss) |})
-        with (restored (mid_cp csD gs1 Sr Ss)).
+        with (restored (mid_cp csD gR Sr Ss)).
       rewrite run_pres_app.
-      rewrite (run_pres_cont (mid_cp csD gs1 Sr Ss) Ss gs1).
-      - rewrite (run_pres_rerun (mid_cp csD gs1 Sr Ss) Sr gs1); auto.
-        + unfold S_items. rewrite map_app, it_sub_fresh. reflexivity.
+      rewrite (run_pres_cont (mid_cp csD gR Sr Ss) Ss (sm gR)).
+      - destruct (run_pres_rerun (mid_cp csD gR Sr Ss) Sr gs1 (sm gR)) as (g' & Hr & Hg'); auto.
         + intros t Ht. cbn [mid_cp cp_skip cp_subs]. split.
           * apply memN_notin. intro Hi. apply (Hdisj _ Hi). apply in_map. exact Ht.
           * apply nlist_get_notin. rewrite sub_cps_keys. intro Hi. apply (Hdisj _ Hi). apply in_map. exact Ht.
         + rewrite Forall_forall in *. intros t Ht. apply HfS. unfold S_tasks. apply in_or_app; auto.
+        + rewrite Hr. exists g'. split; [|exact Hg']. unfold S_items. rewrite map_app, it_sub_fresh. reflexivity.
       - intros s Hs. cbn [mid_cp cp_skip cp_subs]. split.
         + apply memN_in. apply in_map. exact Hs.
         + apply sub_cps_get; auto. }
+    destruct Hsub as (gR1 & Hsub & HgR1).
     assert (Hok : Forall it_ok (S_items Sr Ss)).
     { unfold S_items. apply Forall_app. split.
       - rewrite Forall_forall in *. intros it Hit. apply in_map_iff in Hit as (s & <- & Hs).
@@ -984,14 +1024,14 @@ Section Susp.
       - apply fresh_items_ok.
         + rewrite Forall_forall in *. intros t Ht. apply HdS. unfold S_tasks. apply in_or_app; auto.
         + rewrite Forall_forall in *. intros t Ht. apply HfS. unfold S_tasks. apply in_or_app; auto. }
-    pose proof (seg_core f vU lU sU sR D (S_items Sr Ss) csD) as Hc.
+    pose proof (seg_core f vU lU sU sR D (S_items Sr Ss) csD gR1) as Hc.
     assert (E1 : flat_map it_oldev (S_items Sr Ss) = evs (map si_t Ss))
       by (unfold S_items; rewrite flat_map_app, flat_oldev_fresh, flat_oldev_cont, app_nil_r; reflexivity).
     assert (E2 : flat_map it_old (S_items Sr Ss) = flat_map si_L Ss)
       by (unfold S_items; rewrite flat_map_app, flat_old_fresh, flat_old_cont, app_nil_r; reflexivity).
     rewrite E1, E2 in Hc.
     apply Hc; auto.
-    - intros sU' l' Hwf' HU' fR' env' Hle' He'. apply seg_plain; auto.
+    - intros sU' sR' l' Hsq' Hwf' HU' fR' env' Hle' He'. eapply seg_plain; eauto.
     - rewrite S_items_tasks. exact Hperm.
     - unfold S_items. destruct HS as [HS|HS]; [destruct Sr|destruct Ss]; try congruence; simpl.
       + destruct (map si_item Ss); simpl; discriminate.
@@ -1000,15 +1040,16 @@ Section Susp.
   Qed.
 
   (* one resumed call, whatever the store holds *)
-  Lemma call_rel : forall fuelU (sU : lstateT) vU lU c credit tcredit,
+  Lemma call_rel : forall fuelU (sU : lstateT) vU lU c credit tcredit sm,
+    (forall g, geq (sm g) g) ->
     rel c sU credit tcredit -> WF sU -> iterU fuelU sU tt [] = (ODone vU, lU, tt) ->
     forall fuelR env, (fuelU <= fuelR)%nat -> EOK env ->
-      seg_ok vU lU fuelU credit tcredit env (resumeR fuelR (fun g => g) c env).
+      seg_ok vU lU fuelU credit tcredit env (resumeR fuelR sm c env).
   Proof.
-    intros fuelU sU vU lU c credit tcredit Hr Hwf HU fuelR env Hle He. destruct Hr as [Hc|D Sr Ss Hm].
-    - subst c. pose proof Hwf as (Hj & Hfr & Hnd & Hg).
-      rewrite (resume_save_id zero fold getr pre execR before after fuelR sU env Hfr).
-      apply seg_plain; auto.
+    intros fuelU sU vU lU c credit tcredit sm Hsm Hr Hwf HU fuelR env Hle He. destruct Hr as [sR Hsq HfrR Hc|D Sr Ss Hm].
+    - subst c. rewrite (resume_save zero fold getr pre execR before after fuelR sm sR env HfrR).
+      eapply seg_plain; eauto. destruct Hsq as (E1 & E2 & E3). split; [exact E1|]. split; [exact E2|].
+      simpl. eapply H_geq_trans; [apply Hsm|exact E3].
     - eapply seg_mid; eauto.
   Qed.
 
@@ -1036,12 +1077,12 @@ Section Susp.
          (exists i c, o = OInterrupted i c /\ GSusp c (L0 ++ Lnew) (E0 ++ good l))).
 
     (* a segment continued from a residual *)
-    Lemma seg_resumed_ok : forall c L0 E0 env,
-      GSusp c L0 E0 -> EOK env -> seg_res L0 E0 env (resumeR fuelR (fun g => g) c env).
+    Lemma seg_resumed_ok : forall sm c L0 E0 env, (forall g, geq (sm g) g) ->
+      GSusp c L0 E0 -> EOK env -> seg_res L0 E0 env (resumeR fuelR sm c env).
     Proof.
-      intros c L0 E0 env (sU & fU' & lU1 & lU2 & cr & tcr & Hr & Hwf & Hle & HU & Hl & HpL & HpE) He.
-      pose proof (call_rel fU' sU vU lU2 c cr tcr Hr Hwf HU fuelR env Hle He) as Hseg.
-      destruct (resumeR fuelR (fun g => g) c env) as [[o l] e1]. unfold seg_ok in Hseg. unfold seg_res.
+      intros sm c L0 E0 env Hsm (sU & fU' & lU1 & lU2 & cr & tcr & Hr & Hwf & Hle & HU & Hl & HpL & HpE) He.
+      pose proof (call_rel fU' sU vU lU2 c cr tcr sm Hsm Hr Hwf HU fuelR env Hle He) as Hseg.
+      destruct (resumeR fuelR sm c env) as [[o l] e1]. unfold seg_ok in Hseg. unfold seg_res.
       destruct Hseg as (He1 & Lnew & Htr & Hseg). split; [exact He1|]. exists Lnew. split; [exact Htr|].
       destruct Hseg as [(Ho & Hpe & Hpt)|(i & c2 & sU' & fU2 & l1 & l2 & cr' & tcr' & Ho & Hr' & Hwf' & Hle' & HU' & Hl' & Hpe & Hpt)].
       - left. split; [exact Ho|]. subst lU. rewrite TU_app. split.
@@ -1087,7 +1128,8 @@ Section Susp.
       { split; [simpl; rewrite mk_task_keys; exact Hj1|]. split; [apply map_mk_task_fresh|]. split; [|exact H_G0].
         simpl. rewrite mk_task_keys; exact Hnd. }
       cbn [orb]. destruct (is_nil (hits before ready)) eqn:Hh.
-      - pose proof (seg_plain fuelU s0 vU lU Hwf0 HU fuelR env H_fuel He) as Hseg.
+      - assert (Hsq0 : seqv s0 s0) by (split; [reflexivity|split; [reflexivity|apply H_geq_refl]]).
+        pose proof (seg_plain fuelU s0 s0 vU lU Hsq0 Hwf0 HU fuelR env H_fuel He) as Hseg.
         destruct (iterR fuelR s0 env []) as [[o l] e1]. unfold seg_ok in Hseg. unfold seg_res.
         destruct Hseg as (He1 & Lnew & Htr & Hseg). split; [exact He1|]. exists Lnew. split; [exact Htr|].
         destruct Hseg as [(Ho & Hpe & Hpt)|(i & c2 & sU' & fU2 & l1 & l2 & cr' & tcr' & Ho & Hr' & Hwf' & Hle' & HU' & Hl' & Hpe & Hpt)].
@@ -1098,7 +1140,9 @@ Section Susp.
       - unfold plain_interrupt. rewrite save_mk. fold s0. cbn [out_of].
         split; [exact He|]. exists []. split; [rewrite app_nil_r; reflexivity|].
         right. eexists _, (save s0). split; [reflexivity|].
-        exists s0, fuelU, [], lU, [], []. split; [constructor; reflexivity|]. split; [exact Hwf0|].
+        exists s0, fuelU, [], lU, [], []. split.
+        { apply (rel_plain _ _ s0); [split; [reflexivity|split; [reflexivity|apply H_geq_refl]]|apply map_mk_task_fresh|reflexivity]. }
+        split; [exact Hwf0|].
         split; [exact H_fuel|]. split; [exact HU|]. split; [reflexivity|]. split; constructor.
     Qed.
 
@@ -1112,6 +1156,8 @@ Section Susp.
       Hypothesis H_ser : forall c, deser (ser c) = Some c.
       Variable tick : nat -> ENV -> ENV.      (* what the options of a call change in the environment *)
       Hypothesis H_tick : forall k e, EOK e -> EOK (tick k e) /\ tr (tick k e) = tr e.
+      Variable smods : nat -> GS -> GS.       (* the state modifier of the k-th call *)
+      Hypothesis H_mods : forall k g, geq (smods k g) g.
 
       Notation call_obsT := (@call_obs V CS GS SCP SINFO).
       Notation freshT := (ENV -> outcomeT * list eventT * ENV)%type.
@@ -1142,14 +1188,14 @@ Section Susp.
 
       Lemma drive_rel : forall (fresh : freshT) n k c L E env cos env' cos' co,
         GSusp c L E -> EOK env ->
-        drive ser deser fresh (resumeR fuelR) tick true n k (fun _ g => g) (Some (ser c)) env = (cos, env') ->
+        drive ser deser fresh (resumeR fuelR) tick true n k smods (Some (ser c)) env = (cos, env') ->
         cos = cos' ++ [co] -> done_ok L E env env' cos co.
       Proof.
         intros fresh. induction n as [|n IH]; intros k c L E env cos env' cos' co Hg He Hd Hcos;
           rewrite (drive_unfold ser deser) in Hd; unfold call in Hd; rewrite H_ser in Hd;
           destruct (H_tick k env He) as [Het Htt];
-          pose proof (seg_resumed_ok c L E (tick k env) Hg Het) as Hseg;
-          destruct (resumeR fuelR (fun g => g) c (tick k env)) as [[o l] e1]; unfold seg_res in Hseg;
+          pose proof (seg_resumed_ok (smods k) c L E (tick k env) (H_mods k) Hg Het) as Hseg;
+          destruct (resumeR fuelR (smods k) c (tick k env)) as [[o l] e1]; unfold seg_res in Hseg;
           destruct Hseg as (He1 & Lnew & Htr & [(Ho & Hpe & Hpt)|(i & c2 & Ho & Hg2)]); subst o; simpl in Hd.
         - inversion Hd; subst. apply last_single in H0. subst co.
           right. split; auto. unfold all_logs; simpl. rewrite app_nil_r. split; [exact Hpe|].
@@ -1158,7 +1204,7 @@ Section Susp.
         - inversion Hd; subst. apply last_single in H0. subst co.
           right. split; auto. unfold all_logs; simpl. rewrite app_nil_r. split; [exact Hpe|].
           exists Lnew. rewrite Htr, Htt. auto.
-        - destruct (drive ser deser fresh (resumeR fuelR) tick true n (S k) (fun _ g => g) (Some (ser c2)) e1)
+        - destruct (drive ser deser fresh (resumeR fuelR) tick true n (S k) smods (Some (ser c2)) e1)
             as [rest e2] eqn:Hrest.
           injection Hd as Hd1 Hd2. subst env'. rewrite <- Hd1 in Hcos |- *. clear Hd1.
           pose proof (drive_nonempty _ _ _ _ _ _ _ _ _ _ _ Hrest) as Hne.
@@ -1178,7 +1224,7 @@ Section Susp.
          multiset, the executions of the uninterrupted run; and so is everything the bodies emitted *)
       Lemma susp_equiv_l : forall n env cos env' cos' co, EOK env ->
         drive ser deser (start zero fold getr pre execR before after fuelR cs0 gs0 x) (resumeR fuelR)
-              tick true n 0 (fun _ g => g) None env = (cos, env') ->
+              tick true n 0 smods None env = (cos, env') ->
         cos = cos' ++ [co] -> done_ok [] [] env env' cos co.
       Proof.
         intros n env cos env' cos' co He Hd Hcos.
@@ -1194,7 +1240,7 @@ Section Susp.
         - destruct n as [|n].
           { inversion Hd; subst. apply last_single in H0. subst co. left; red; simpl; eauto. }
           match type of Hd with context[drive ser deser ?f _ _ true n 1%nat] =>
-            destruct (drive ser deser f (resumeR fuelR) tick true n 1%nat (fun _ g => g) (Some (ser c2)) e1)
+            destruct (drive ser deser f (resumeR fuelR) tick true n 1%nat smods (Some (ser c2)) e1)
               as [rest e2] eqn:Hrest end.
           injection Hd as Hd1 Hd2. subst env'. rewrite <- Hd1 in Hcos |- *. clear Hd1.
           pose proof (drive_nonempty _ _ _ _ _ _ _ _ _ _ _ Hrest) as Hne.
